@@ -1,6 +1,7 @@
 import ProbLogModel.Sem
 import ProbLogProofs.Lemmas.SemGamma
 import ProbLogProofs.Lemmas.SemRules
+import ProbLogProofs.Lemmas.SemGroupsRun
 /-!
 # C07 — marginals do not depend on the textual order of the program (specification level)
 
@@ -57,6 +58,14 @@ theorem C07_perm_body_run (P : Prog) {rules' : List Rule} (h : BodyPerms P.rules
     run { P with rules := rules' } queries evidence = run P queries evidence :=
   run_congr_rules P (REqv.of_bodyPerms h) queries evidence
 
+/-- The whole result does not depend on the order of the groups (probabilistic facts / annotated disjunctions):
+    the total choices of a permuted group list are the same up to the order inside `chosen`, `run` only uses
+    membership in `chosen`, and its sums are commutative. -/
+theorem C07_perm_groups_run (P : Prog) {gs' : List Group} (h : P.groups.Perm gs') (queries : List Nat)
+    (evidence : List (Nat × Bool)) :
+    run { P with groups := gs' } queries evidence = run P queries evidence :=
+  SemGroupsRun.run_perm_groups P h queries evidence
+
 /-! ### non-vacuity: `0.3::c0. 0.6::c1. a0 :- c0. a1 :- a0, \+a2. a2 :- c1. a1 :- a2, a0.` -/
 
 def exRules : List Rule :=
@@ -78,5 +87,9 @@ example : ((wfm exRules #[true, true] 3).1.toList, (wfm exRules #[true, true] 3)
 example : (run exProg [1] [(0, true)]).z = 3/10 ∧ (run exProg [1] [(0, true)]).num = [3/10] := by
   decide +kernel
 example : (run { exProg with rules := exRulesPerm } [1] [(0, true)]).num = [3/10] := by decide +kernel
+
+example : exProg.groups.Perm [⟨[(3/5, 1)]⟩, ⟨[(3/10, 0)]⟩] := List.Perm.swap _ _ _
+example : (run { exProg with groups := [⟨[(3/5, 1)]⟩, ⟨[(3/10, 0)]⟩] } [1] [(0, true)]).num = [3/10] := by
+  decide +kernel
 
 end ProbLogProofs.C07
